@@ -166,6 +166,11 @@ func init() {
 			m.hookPoint("hook:" + a[0].(string))
 			return nil
 		},
+		"harness/vrt.SchedMain": func(fr *frame, a []value) value { return nil },
+		"harness/vrt.SchedAtomics": func(fr *frame, a []value) value {
+			fr.m.atomicPoints = a[0].(*Term) == True
+			return nil
+		},
 		"harness/vrt.Spawn": func(fr *frame, a []value) value {
 			fr.m.spawn(a[0].(string), a[1], nil)
 			fr.m.threads[len(fr.m.threads)-1].named = true
